@@ -202,6 +202,12 @@ def run_path(cset, fc, prefix, res, opts):
             outcome = ("raise", r.exc)
         except (BreakEx, ContinueEx):
             raise Unsupported("break/continue outside loop")
+        if outcome[0] == "return" and fc.epilogue is not None:
+            # what the environment does next (e.g. the event loop running callbacks that became due during the call)
+            try:
+                fc.epilogue(I, I.frames[0].env)
+            except Raised as r:
+                outcome = ("raise", r.exc)
         # --- postconditions
         I.frames = [Frame(fc, dict(entry_env))]
         I.old_heap = entry
@@ -249,6 +255,8 @@ def run_path(cset, fc, prefix, res, opts):
         for key in sorted(I.modified, key=lambda k: (getattr(k[0], "name", ""), str(k[1]))):
             if fc.skip_frame:
                 break
+            if key in getattr(I, "undeclared_fields", ()):
+                continue
             if key in allowed or key[0] in star_objs:
                 continue
             if key not in entry.data and entry.ver.get(key, 0) == 0 and not _reachable_at_entry(key, entry):
